@@ -232,6 +232,12 @@ where
             };
 
             for peer in peers_waiting {
+                // The want is served, so the peer forgets it. If it asks for the
+                // same CID again, that is a new want and will be served again.
+                if let Some(peer_state) = self.peers_wantlists.get_mut(&peer) {
+                    peer_state.0.remove(&cid);
+                }
+
                 blocks_ready_for_peer
                     .entry(peer)
                     .or_default()
